@@ -379,4 +379,34 @@ PROPS["C17"] = {
     "rule": "kitchen-sink circuit (all gadgets, tables of 5/26/40 entries, random access 2..64) with and without zk, generated programs, two recursion circuits; proofs and compressed proofs; valid + mutated encodings (truncations, bit flips, 8-byte windows, sibling counts, public-input counts, query indices, appended bytes, random strings); distinct = distinct request lines",
 }
 
+PROPS["C06"] = {
+    "lean_modules": ["P2.Props.C06", "P2.Props.C03"],
+    "audit_module": "P2.Audit.C06",
+    "harness_prop": "c06",
+    "profile": "release",
+    "judge": judge_plonk_verdict,
+    "trusted_base": PLONK_TB + [
+        "the recursive verifier circuit (recursion/recursive_verifier.rs, fri/recursive_verifier.rs) is NOT modelled as a whole: component denotations only (Merkle check, PoW check, selection); the whole-verifier equivalence is tied by the three-way agreement native = in-circuit = Lean model on every inner proof variant (partial)",
+    ],
+    "level_text": "Lean 4: component equivalences (in-circuit Merkle verification with canonical index bits <=> verify_merkle_proof_to_cap = Ok for every path length/position/cap; in-circuit proof-of-work check <=> native check) and the native verifier's decision logic; for generated inner circuits (lookups, zk, several degrees and FRI arities) and inner proofs valid / tampered in every element class / false statements from violated gates / bad grinding / foreign verifier data, the OUTER circuit's verdict (library assignment routines, witness generation, outer prove + verify, public inputs re-exposed) must equal the native verdict, which must equal the Lean verifier model's verdict",
+    "level_note": "The in-circuit verifier is a deterministic function of the inner proof, so exact agreement is required at any strength. A misshapen proof that the assignment routines cannot place into the fixed-shape target counts as not accepted.",
+    "assumptions": [],
+    "rule": "3 (thorough 10) inner circuits x (honest + 1-3 tampered elements per JSON leaf class + bad grinding + false statements + foreign verifier data); every variant judged natively, in-circuit and by the Lean model; distinct = distinct request lines",
+}
+
+PROPS["C20"] = {
+    "lean_modules": ["P2.Props.C20", "P2.Props.C06"],
+    "audit_module": "P2.Audit.C20",
+    "harness_prop": "c20",
+    "profile": "release",
+    "judge": judge_plonk_verdict,
+    "trusted_base": PLONK_TB + [
+        "conditional / cyclic recursion circuits are not modelled as a whole: selection logic and the verifier-data check are modelled and proved; the composed behaviour is tied by the implementation-side oracle (partial)",
+    ],
+    "level_text": "Lean 4: selection denotes if on every component; conditional verification of the element-wise selection = verification of the selected pair (the other branch does not occur); check_cyclic_proof_verifier_data accepts iff the public inputs end with the circuit's digest and cap, and any alteration of the embedded data is rejected; implementation oracle: both condition values x 9 validity combinations of the two branches (valid / tampered / valid under foreign verifier data) must give outer-accept <=> selected pair natively valid (also judged by the Lean verifier); dummy proofs verify for their dummy circuit with identical common data; cyclic chains from both base cases verify at every step, carry the verifier data, compute the repeated hash, refuse a tampered predecessor, and the vd check rejects every altered embedded element",
+    "level_note": "Chain length 2 (thorough 4) per base case; the chain theorem for arbitrary length is not proved (partial).",
+    "assumptions": [],
+    "rule": "1 (thorough 4) conditional setups x 18 condition/validity combinations, 2-6 dummy circuits, 2 cyclic chains with vd alterations of every 7th (thorough: every) embedded element; distinct = distinct request lines",
+}
+
 NOT_CLAIMED = {}
